@@ -44,6 +44,7 @@ import EsbuildModel.Impl.WatchLoop
 import EsbuildModel.Impl.MangleProps
 import EsbuildModel.Impl.JsxText
 import EsbuildModel.Impl.CjsWrapDriver
+import EsbuildModel.Impl.OutPathsDriver
 
 open EsbuildModel
 
@@ -98,6 +99,7 @@ def dispatch (kernel : String) (args : List String) : String :=
   | "mangleprops" => MangleProps.driver args
   | "jsxtext" => JsxText.driver args
   | "cjswrap" => CjsWrap.driver args
+  | "outpaths" => OutPaths.driver args
   | _ => "bad-kernel"
 
 partial def loop (hin hout : IO.FS.Stream) : IO Unit := do
